@@ -446,7 +446,7 @@ struct Gen {
 
 impl Gen {
     fn push(&mut self, op: &str, lv: &FieldValue, rv: &FieldValue, stream: &str) {
-        let mut args = vec![Sexp::atom(op), value_to_sexp(lv), value_to_sexp(rv)];
+        let mut args = vec![Sexp::atom(op), value_to_sexp_exact(lv), value_to_sexp_exact(rv)];
         if REGEX_OPS.contains(&op) {
             let (c, m) = regex_bits(lv, rv);
             args.push(Sexp::atom(bit(c)));
@@ -480,7 +480,7 @@ impl Gen {
     fn push_unary(&mut self, op: &str, v: &FieldValue, stream: &str) {
         let opk = format!("op:{op}");
         let tags: Vec<&str> = vec![stream, &opk, kind_name(v), "typed", "nt:payload-decides"];
-        self.out.push(Case::new(Sexp::call("filter", vec![Sexp::atom(op), value_to_sexp(v)]), &tags));
+        self.out.push(Case::new(Sexp::call("filter", vec![Sexp::atom(op), value_to_sexp_exact(v)]), &tags));
     }
 }
 
